@@ -105,33 +105,88 @@ Lemma maxplus_nan_l x : @maxplus Xq XNaN x = x.
 Proof. destruct x; reflexivity. Qed.
 
 (* ---- bag keys: a strict total order ---- *)
+Lemma comp_cmp_eq a b : comp_cmp (N:=Xq) a b = Eq <-> a = b.
+Proof.
+  destruct a as [x|], b as [y|]; simpl; split; try discriminate; auto.
+  - destruct x as [p| | |], y as [q| | |]; simpl; try discriminate; auto.
+    qc_cmp_cases p q; simpl; try discriminate. subst; reflexivity.
+  - intro H. inversion H; subst. destruct y; simpl; auto. rewrite Qc_cmp_refl. reflexivity.
+Qed.
+
+Lemma comp_cmp_antisym a b : comp_cmp (N:=Xq) b a = CompOpp (comp_cmp a b).
+Proof.
+  destruct a as [x|], b as [y|]; simpl; auto.
+  destruct x as [p| | |], y as [q| | |]; simpl; auto.
+  rewrite (Qc_cmp_antisym p q). destruct (p ?= q); reflexivity.
+Qed.
+
+Lemma comp_cmp_trans a b c :
+  comp_cmp (N:=Xq) a b = Lt -> comp_cmp b c = Lt -> comp_cmp a c = Lt.
+Proof.
+  destruct a as [x|], b as [y|], c as [z|]; cbn [comp_cmp]; try discriminate; auto.
+  destruct x as [p| | |], y as [q| | |], z as [r| | |]; xsimp; try discriminate; auto.
+  destruct (p ?= q) eqn:H1; try discriminate.
+  destruct (q ?= r) eqn:H2; try discriminate. intros _ _.
+  cmp_hyps. assert (H : p < r) by (eapply Qclt_trans; eauto). apply Qc_cmp_lt in H. rewrite H. reflexivity.
+Qed.
+
+Lemma vec_cmp_eq a : forall b, vec_cmp (N:=Xq) a b = Eq <-> a = b.
+Proof.
+  induction a as [|x a IH]; intros [|y b]; cbn [vec_cmp]; split; try discriminate; auto.
+  - destruct (comp_cmp x y) eqn:C; try discriminate. apply comp_cmp_eq in C. subst.
+    intro H. apply IH in H. subst. reflexivity.
+  - intro H. inversion H; subst. rewrite (proj2 (comp_cmp_eq y y) eq_refl). apply IH. reflexivity.
+Qed.
+
+Lemma vec_cmp_antisym a : forall b, vec_cmp (N:=Xq) b a = CompOpp (vec_cmp a b).
+Proof.
+  induction a as [|x a IH]; intros [|y b]; cbn [vec_cmp]; auto.
+  rewrite (comp_cmp_antisym x y). destruct (comp_cmp x y); cbn [CompOpp]; auto.
+Qed.
+
+Lemma vec_cmp_trans a : forall b c,
+  vec_cmp (N:=Xq) a b = Lt -> vec_cmp b c = Lt -> vec_cmp a c = Lt.
+Proof.
+  induction a as [|x a IH]; intros [|y b] [|z c]; cbn [vec_cmp]; try discriminate; auto.
+  destruct (comp_cmp x y) eqn:C1; try discriminate.
+  - apply comp_cmp_eq in C1. subst y. destruct (comp_cmp x z) eqn:C2; try discriminate; auto.
+    apply IH.
+  - intros _. destruct (comp_cmp y z) eqn:C2; try discriminate.
+    + apply comp_cmp_eq in C2. subst z. rewrite C1. reflexivity.
+    + rewrite (comp_cmp_trans x y z C1 C2). reflexivity.
+Qed.
+
 Lemma bag_cmp_eq a b : bag_cmp (N:=Xq) a b = Eq <-> a = b.
 Proof.
-  destruct a as [x| |s], b as [y| |t]; simpl; split; try discriminate; auto.
+  destruct a as [x| |s|u], b as [y| |t|v]; simpl; split; try discriminate; auto.
   - destruct x as [p| | |], y as [q| | |]; simpl; try discriminate; auto.
     qc_cmp_cases p q; simpl; try discriminate. subst; reflexivity.
   - intro H. inversion H; subst. destruct y; simpl; auto. rewrite Qc_cmp_refl. reflexivity.
   - intro H. apply str_cmp_eq in H. subst; reflexivity.
   - intro H. inversion H; subst. apply str_cmp_eq. reflexivity.
+  - intro H. apply vec_cmp_eq in H. subst; reflexivity.
+  - intro H. inversion H; subst. apply vec_cmp_eq. reflexivity.
 Qed.
 
 Lemma bag_cmp_antisym a b : bag_cmp (N:=Xq) b a = CompOpp (bag_cmp a b).
 Proof.
-  destruct a as [x| |s], b as [y| |t]; simpl; auto.
+  destruct a as [x| |s|u], b as [y| |t|v]; simpl; auto.
   - destruct x as [p| | |], y as [q| | |]; simpl; auto.
     rewrite (Qc_cmp_antisym p q). destruct (p ?= q); reflexivity.
   - apply str_cmp_antisym.
+  - apply vec_cmp_antisym.
 Qed.
 
 Lemma bag_cmp_trans a b c :
   bag_cmp (N:=Xq) a b = Lt -> bag_cmp b c = Lt -> bag_cmp a c = Lt.
 Proof.
-  destruct a as [x| |s], b as [y| |t], c as [z| |u]; cbn [bag_cmp]; try discriminate; auto.
+  destruct a as [x| |s|u], b as [y| |t|v], c as [z| |r|o]; cbn [bag_cmp]; try discriminate; auto.
   - destruct x as [p| | |], y as [q| | |], z as [r| | |]; xsimp; try discriminate; auto.
     destruct (p ?= q) eqn:H1; try discriminate.
     destruct (q ?= r) eqn:H2; try discriminate. intros _ _.
     cmp_hyps. assert (H : p < r) by (eapply Qclt_trans; eauto). apply Qc_cmp_lt in H. rewrite H. reflexivity.
   - apply str_cmp_trans.
+  - apply vec_cmp_trans.
 Qed.
 
 (* ---- bags ---- *)
@@ -380,6 +435,8 @@ Proof.
     + destruct v; try discriminate. intro E; inversion E; subst. apply (G (BStr s)). exact I.
     + destruct (@as_real Xq v) as [q|]; [|discriminate]. intro E; inversion E; subst.
       apply G. destruct q; simpl; auto.
+    + destruct v; try discriminate. destruct (Nat.eqb _ _); [|discriminate].
+      intro E; inversion E; subst. apply G. exact I.
 Qed.
 
 Lemma min_update_minplus (m q : xq) :
@@ -453,6 +510,10 @@ Proof.
       f_equal. apply lstate_eq; xproj; try reflexivity. apply xadd_assoc.
       symmetry. apply bag_merge_upd; assumption.
     + destruct (@as_real Xq v) as [q|]; [|discriminate].
+      intro E; inversion E; subst; clear E; xproj.
+      f_equal. apply lstate_eq; xproj; try reflexivity. apply xadd_assoc.
+      symmetry. apply bag_merge_upd; assumption.
+    + destruct v; try discriminate. destruct (Nat.eqb _ _); [|discriminate].
       intro E; inversion E; subst; clear E; xproj.
       f_equal. apply lstate_eq; xproj; try reflexivity. apply xadd_assoc.
       symmetry. apply bag_merge_upd; assumption.
